@@ -271,8 +271,11 @@ def r_tables(ctx, sym, h):
             eff = base
             if isinstance(base, tuple):
                 eff = 'fires' if ok4 else 'silent'     # the wrapper decides what a raising condition means
-                if why != 'relation evaluated' or True:
-                    uneval.append((operands, base))
+                uneval.append((operands, base))
+                if why == 'relation evaluated':
+                    # CPython evaluates the relation on these operands without raising: a condition that raises here
+                    # is broken, whatever the wrapper does with the exception afterwards
+                    rel_bad.append((operands, 'raises %s' % base[1], want, why))
             if (eff == 'fires') != want and not isinstance(base, tuple):
                 rel_bad.append((operands, base, want, why))
             # proxies
@@ -302,7 +305,8 @@ def r_tables(ctx, sym, h):
             ctx.fail('R1', key + ':relation', owner.module, fn,
                      "%d operand tuple(s) decided wrongly; e.g. %s(%s) %s although the relation %s" % (
                          len(rel_bad), spec.name, ', '.join(map(fmt, ops)),
-                         'fires' if got == 'fires' else 'stays silent', 'holds' if not want else 'does not hold'),
+                         'fires' if got == 'fires' else ('stays silent' if got == 'silent' else got),
+                         'holds' if not want else 'does not hold'),
                      "%s(%s) and its negated counterpart on the same operands" % (spec.name, ', '.join(map(fmt, ops))))
         else:
             ctx.ok('R1', key + ':relation', sample={'assertion': spec.name, 'cells': len(spec.domain)})
@@ -429,17 +433,33 @@ def r6_equality_symmetry(ctx, sym):
         fd.calls['re.sub'] = re.sub
         fd.calls['sorted'] = sorted
         fd.attr_hook = lambda base, attr: getattr(base, attr)
-        for name in ('equality_test', '_are_sequences_equal', '_are_sets_equal', '_set_contains', '_normalize_string'):
-            fd.functions[name] = mod.func(name)
+        # helpers of the module are found through the module itself (fdeval follows them); none is named here
         fd.methods['keys'] = lambda d: list(d.keys())
         return fd
     pairs = [(5, 5.0005), (5.0, 5.0005), (5, 5), (5, 6), (1.0, 1), (0.3, 0.1 + 0.2), (True, 1), ('Hello!', 'hello'),
              ('a b', 'a  b'), ('a', 'b'), ([1, 2.0004], [1, 2]), ((1, 'A'), (1, 'a')), ({'k': 1.0004}, {'k': 1}),
-             ({1, 2}, {2, 1}), (None, None), (None, 0), ([1], (1,)), (5.0005, 5.0011)]
+             ({1, 2}, {2, 1}), (None, None), (None, 0), ([1], (1,)), (5.0005, 5.0011),
+             ({'a': 1, 'b': 2}, {'a': 1}), ([{'a': 1, 'b': 2}], [{'a': 1}]), ({'a': 1}, {'a': 1}), ({}, {'a': 1}),
+             ([1, 2, 3], [1, 2]), ((1, 2), (1, 2, 3)), ({1, 2, 3}, {1, 2})]
     # documented semantics (tolerance .001, case/punctuation/whitespace-insensitive strings, recursive containers)
     documented = {(5.0, 5.0005): True, (5, 5): True, (5, 6): False, (1.0, 1): True, ('Hello!', 'hello'): True,
                   ('a b', 'a  b'): True, ('a', 'b'): False, ((1, 'A'), (1, 'a')): True, (None, None): True,
                   (None, 0): False, (5.0, 5.1): False}
+    # containers of different sizes are different, whichever side is the larger one
+    for a, b in (({'a': 1, 'b': 2}, {'a': 1}), ([1, 2, 3], [1, 2]), ((1, 2), (1, 2, 3)), ({1, 2, 3}, {1, 2}),
+                 ({}, {'a': 1})):
+        for x, y in ((a, b), (b, a)):
+            fd = new_fd()
+            try:
+                got = bool(fd.call_function(fn, [x, y, False, .001]))
+            except Raised as e:
+                got = 'raises ' + e.kind
+            except Inconclusive as e:
+                raise AnalysisError("C07 R6: equality_test outside the decidable fragment on %r: %s" % ((x, y), e))
+            ctx.check(got is False, 'R6', 'equality_test(%r,%r):different-sizes' % (x, y), mod, fn,
+                      "equality_test(%r, %r) is %s although the containers have different sizes" % (x, y, got),
+                      "assert_equal(%r, %r) passes; unit_test() counts a case with a spurious extra key as passed" % (
+                          x, y))
     for (a, b), want in documented.items():
         fd = new_fd()
         try:
